@@ -496,22 +496,40 @@ func c18anomaly(c *Ctx) {
 		ok := fn.Name() == "onAbnormalities"
 		why := "called from " + fn.Name()
 		if ok {
-			ok = false
-			for _, g := range an.Guards(cl) {
-				if !g.Truth {
-					continue
-				}
-				if call, isC := g.Cond.(*ssa.Call); isC && strings.HasSuffix(an.Path(call.Call.Value), ".anomalyConditionFn") && len(call.Call.Args) == 1 && strings.HasSuffix(an.Path(call.Call.Args[0]), ".counter") {
-					ok = true
-				}
-				if bo, isB := g.Cond.(*ssa.BinOp); isB && bo.Op == token.EQL {
-					if p, isP := bo.X.(*ssa.Parameter); isP && p.Name() == "state" {
-						if kk, isC := constIntOf(bo.Y); isC && kk == 1 {
-							ok = true
+			// unreachable once the state is not the anomalous one and the condition function said no
+			// (whatever the shape of the test: arms of a switch, nested ifs, or one disjunction)
+			facts := an.Facts{}
+			nFn := 0
+			for _, b := range fn.Blocks {
+				for _, in := range b.Instrs {
+					switch x := in.(type) {
+					case *ssa.Call:
+						if strings.HasSuffix(an.Path(x.Call.Value), ".anomalyConditionFn") && len(x.Call.Args) == 1 && strings.HasSuffix(an.Path(x.Call.Args[0]), ".counter") {
+							facts[x] = an.False
+							nFn++
+						}
+					case *ssa.BinOp:
+						if x.Op != token.EQL && x.Op != token.NEQ {
+							continue
+						}
+						pv, kv := x.X, x.Y
+						if _, isC := constIntOf(pv); isC {
+							pv, kv = kv, pv
+						}
+						if p, isP := pv.(*ssa.Parameter); isP && len(fn.Params) > 1 && p == fn.Params[1] {
+							if kk, isC := constIntOf(kv); isC && kk == 1 {
+								if x.Op == token.EQL {
+									facts[x] = an.False
+								} else {
+									facts[x] = an.True
+								}
+							}
 						}
 					}
 				}
 			}
+			reach := an.Explore(fn, nil, facts, nil)
+			ok = nFn > 0 && !reach.Reached(cl)
 			why = "not guarded by anomalyConditionFn(d.counter) or by the already-anomalous arm"
 		}
 		r.Check(ok, "TYPESTATE", sprintf("%s/to-anomaly/%s#%d", k, fn.Name(), i), c.InstrPos(cl), "transition to StateAnomaly only under the anomaly condition", "setState(StateAnomaly) is "+why)
